@@ -183,13 +183,22 @@ func frameLayout(c *core.Ctx) {
 	}
 	sliceBounds := func(e ast.Expr) (arr ast.Expr, lo, hi, n int64, ok bool) {
 		se, isSlice := astx.Unparen(e).(*ast.SliceExpr)
-		if !isSlice || se.Low == nil || se.High == nil {
+		if !isSlice {
 			return nil, 0, 0, 0, false
 		}
 		a, isArr := info.TypeOf(se.X).Underlying().(*types.Array)
-		l, ok1 := astx.ConstInt(info, se.Low)
-		h, ok2 := astx.ConstInt(info, se.High)
-		if !isArr || !ok1 || !ok2 {
+		if !isArr {
+			return nil, 0, 0, 0, false
+		}
+		// omitted bounds are 0 and the array's length
+		l, h, ok1, ok2 := int64(0), a.Len(), true, true
+		if se.Low != nil {
+			l, ok1 = astx.ConstInt(info, se.Low)
+		}
+		if se.High != nil {
+			h, ok2 = astx.ConstInt(info, se.High)
+		}
+		if !ok1 || !ok2 {
 			return nil, 0, 0, 0, false
 		}
 		return se.X, l, h, a.Len(), true
@@ -238,6 +247,27 @@ func frameLayout(c *core.Ctx) {
 		}
 		return true
 	})
+	// or the array literal that creates the prefix already holds the flags: [5]byte{env.Flags} / {0: env.Flags}
+	if wl.flagIdx < 0 {
+		if def := soleDefinition(info, w.Body, warr); def != nil {
+			if lit, ok := astx.Unparen(def).(*ast.CompositeLit); ok {
+				next := int64(0)
+				for _, el := range lit.Elts {
+					v := el
+					if kv, ok := el.(*ast.KeyValueExpr); ok {
+						if k, isC := astx.ConstInt(info, kv.Key); isC {
+							next = k
+						}
+						v = kv.Value
+					}
+					if astx.IsFieldNamed(info, v, "Flags") {
+						wl.flagIdx = next
+					}
+					next++
+				}
+			}
+		}
+	}
 	flagReads := map[int64]bool{}
 	ast.Inspect(r.Body, func(x ast.Node) bool {
 		if as, ok := x.(*ast.AssignStmt); ok && len(as.Lhs) == 1 && len(as.Rhs) == 1 && astx.IsFieldNamed(info, as.Lhs[0], "Flags") {
